@@ -1,6 +1,7 @@
 (* Props/C01.v — property theorems only.  C01: the returned design keeps the EFT within the limits. *)
 From Coq Require Import ZArith QArith Qabs List.
 From GHE Require Import Base.QUtil gen.Src Model.Search Proof.SearchP.
+From GHE Require Import Model.RowSearch Proof.RowSearchP.
 Import ListNotations.
 Open Scope Z_scope.
 
@@ -44,6 +45,13 @@ Theorem C01_size_after_feasible_at_hmax :
   (((f lo < 0 /\ 0 < f hi) \/ (f hi < 0 /\ 0 < f lo))%Q -> (Qabs (f b) <= eps)%Q) -> (0 <= eps)%Q -> (f H <= eps)%Q.
 Proof. exact size_after_feasible_at_hmax. Qed.
 Print Assumptions C01_size_after_feasible_at_hmax.
+
+(* the RowWise search: unless it escapes through continue_if_design_unmet, the field it selects meets the limits at maximum height
+   (generated field, 1X1, or the sparsest field with boreholes removed) — for every oracle, window, step and iteration limit *)
+Theorem C01_rowwise_selected_feasible_at_hmax :
+  forall o st sp stp cont it r, rw_search true o st sp stp cont it = Ok r -> rw_escaped r = false -> probe_ok o (rw_sel r).
+Proof. exact rw_selected_feasible. Qed.
+Print Assumptions C01_rowwise_selected_feasible_at_hmax.
 
 Example C01_nonvacuous : cost 36 10 35 5 = 1%Q.
 Proof. vm_compute. reflexivity. Qed.
